@@ -417,7 +417,8 @@ def reject_case(draw):
         c["g"] = draw(gen.geom(nmin=2, nmax=4, exps=(-9, -9), maxcells=120, int_corners=False))
     c["bad"] = draw(st.sampled_from(["shifted-mesh", "other-n", "other-n-broadcastable", "other-n-broadcastable", "nvdim",
                                      "type-str", "type-none", "type-dict"]))
-    c["op"] = draw(st.sampled_from(["add", "add", "sub", "mul", "mul", "div", "dot", "cross", "lshift"]))
+    c["op"] = draw(st.sampled_from(["add", "add", "sub", "mul", "mul", "div", "dot", "cross", "lshift", "angle", "npadd",
+                                    "npmul", "nparctan2"]))
     c["k2"] = draw(st.integers(2, 4))
     c["axis"] = draw(st.integers(0, len(c["g"]["n"]) - 1))
     c["shift"] = draw(st.sampled_from([0.25, 0.5, 1.0, 3.0]))
@@ -470,7 +471,9 @@ def check_reject(case):
 
     def run(x, y):
         return {"add": lambda: x + y, "sub": lambda: x - y, "mul": lambda: x * y, "div": lambda: x / y,
-                "dot": lambda: x @ y, "cross": lambda: x & y, "lshift": lambda: x << y}[op]()
+                "dot": lambda: x @ y, "cross": lambda: x & y, "lshift": lambda: x << y, "angle": lambda: (x.angle(y) if hasattr(x, "angle") else y.angle(x)),
+                "npadd": lambda: np.add(x, y), "npmul": lambda: np.multiply(x, y),
+                "nparctan2": lambda: np.arctan2(x, y)}[op]()
 
     x, y = (other, A) if case["swap"] else (A, other)
     try:
@@ -478,6 +481,10 @@ def check_reject(case):
             r = run(x, y)
     except (ValueError, TypeError):
         return
+    except NotImplementedError:
+        if op.startswith("np"):
+            return  # the ufunc protocol's way of refusing: an error all the same
+        raise
     raise Violation(f"reject:{bad}", f"{op} with {bad} operand accepted -> {type(r).__name__}")
 
 
